@@ -90,7 +90,7 @@ def program_for(bp, decl, seed, horizon=HORIZON, with_ic=None, region_mode='rand
                  'consumption_good_name': d['good']}
             if k != 'Capitalists':
                 a['labour_name'] = d['lab']
-        elif k == 'FixedMarginBusiness':
+        elif k in ('FixedMarginBusiness', 'FixedMarginBusinessSub'):
             a = {'profit_margin': params[s]['margin'] if d['margin'] else 0.0,
                  'labour_input_name': d['lab'], 'output_name': d['good']}
         elif k == 'FixedMarginBusinessMultiOutput':
@@ -373,8 +373,15 @@ def sample_behaviours(behs, bps, k, seed):
         canon = [b for b in lst if b['decl'] == list(range(1, n + 1))]
         out.extend(canon[:1])
         rest = [b for b in lst if b not in canon[:1]]
+        # the order farthest from the canonical one (most inversions): every pair of free sectors is declared the
+        # other way round at least once
+        def inversions(d):
+            return sum(1 for i in range(len(d)) for j in range(i + 1, len(d)) if d[i] > d[j])
+        far = sorted(rest, key=lambda b: (-inversions(b['decl']), b['decl']))[:1]
+        out.extend(far)
+        rest = [b for b in rest if b not in far]
         rnd.shuffle(rest)
-        out.extend(rest[:max(1, k // max(1, len(by)))])
+        out.extend(rest[:max(1, k // max(1, len(by)) - 1)])
     return out
 
 
